@@ -96,8 +96,19 @@ MarkOpen(st) == [st EXCEPT !.open = TRUE]
 
 ----------------------------------------------------------------------------
 (* operators on the small value universe of the control-flow families *)
+\* membership: the relation of == over the elements (cross-kind equality is property C06's business: open here)
+InList(st, a, b) ==
+  IF b.t = "list" THEN
+       IF a.t \in {"func", "host", "mod", "ptr", "chan", "open"} THEN Norm(MarkOpen(st), OpenV)
+       ELSE IF \A j \in 1..Len(b.l) : b.l[j].t = a.t \/ b.l[j].t = "nil" \/ a.t = "nil"
+            THEN Norm(st, BoolV(\E j \in 1..Len(b.l) : EqV(a, b.l[j])))
+            ELSE Norm(MarkOpen(st), OpenV)
+  ELSE IF b.t \in {"nil", "int", "bool", "flt", "str", "func", "map"} THEN Thr(st, RtErrV("in"))     \* the right operand has no elements to search
+  ELSE Norm(MarkOpen(st), OpenV)
+
 Arith(st, op, a, b) ==
-  IF a.t = "int" /\ b.t = "int" THEN
+  IF op = "in" THEN InList(st, a, b)
+  ELSE IF a.t = "int" /\ b.t = "int" THEN
     CASE op = "+"  -> Norm(st, IntV(a.i + b.i))
       [] op = "-"  -> Norm(st, IntV(a.i - b.i))
       [] op = "*"  -> Norm(st, IntV(a.i * b.i))
@@ -133,7 +144,7 @@ RECURSIVE EvalE(_, _, _), EvalSeq(_, _, _, _, _), EvalSeqT(_, _, _, _, _, _), Ev
           Apply(_, _, _), BindParams(_, _, _, _, _), RunDefers(_, _, _, _, _),
           Exec(_, _, _), ExecList(_, _, _, _), While(_, _, _, _), CFor(_, _, _, _), ForIn(_, _, _, _, _, _),
           ElseIfs(_, _, _, _), Cases(_, _, _, _, _), CaseExprs(_, _, _, _, _, _), AssignAll(_, _, _, _, _, _), DefineAll(_, _, _, _, _, _),
-          JumpThroughFinally(_, _, _)
+          JumpThroughFinally(_, _, _), SliceE(_, _, _)
 
 \* evaluate es[i..] left to right; stop at the first operand that does not complete normally
 EvalSeq(es, i, s, st, acc) ==
@@ -167,6 +178,37 @@ EvalMap(e, i, s, st, acc) ==
             IF rv.o # "norm" THEN rv
             ELSE IF ~ElemOK(TyOf(e), rv.v) THEN Thr(rv.st, RtErrV("convert"))
             ELSE EvalMap(e, i + 1, s, rv.st, MapPut(acc, rk.v, rv.v))
+
+\* a[lo:hi] and a[lo:hi:cap] (every bound optional): the sliced operand, then the bounds that are written, each once, left to right.
+\* A bound that is not acceptable (0 <= lo <= hi <= len, hi <= cap) is an error of the operation; whether the bounds AFTER it were
+\* evaluated is left open when they could be observed.  Strings (property C10) and capacities beyond the length (the spare capacity of
+\* a list is not state of this module) are open.
+Const(e) == e.k \in {"int", "str", "bool", "nil", "flt"}
+AllConst(es) == \A j \in 1..Len(es) : Const(es[j])
+SliceFail(st, later, c) == Thr(IF AllConst(later) THEN st ELSE MarkOpen(st), RtErrV(c))
+SliceE(e, s, st) ==
+  LET b == EvalE(e.e, s, st) IN
+  IF b.o # "norm" THEN b
+  ELSE IF b.v.t \in {"nil", "int", "bool", "flt", "func", "map"} THEN SliceFail(b.st, e.lo \o e.hi \o e.cap, "slice")
+  ELSE IF b.v.t # "list" THEN Norm(MarkOpen(b.st), OpenV)
+  ELSE LET n == Len(b.v.l)
+           lo == IF Len(e.lo) = 1 THEN EvalE(e.lo[1], s, b.st) ELSE Norm(b.st, IntV(0)) IN
+       IF lo.o # "norm" THEN lo
+       ELSE IF lo.v.t # "int" THEN Norm(MarkOpen(lo.st), OpenV)
+       ELSE IF lo.v.i < 0 THEN SliceFail(lo.st, e.hi \o e.cap, "range")
+       ELSE LET hi == IF Len(e.hi) = 1 THEN EvalE(e.hi[1], s, lo.st) ELSE Norm(lo.st, IntV(n)) IN
+            IF hi.o # "norm" THEN hi
+            ELSE IF hi.v.t # "int" THEN Norm(MarkOpen(hi.st), OpenV)
+            ELSE IF hi.v.i > n THEN SliceFail(hi.st, e.cap, "range")
+            ELSE IF lo.v.i > hi.v.i THEN SliceFail(hi.st, e.cap, "range")
+            ELSE LET res == ListV(SubSeq(b.v.l, lo.v.i + 1, hi.v.i)) IN
+                 IF Len(e.cap) = 0 THEN Norm(hi.st, res)
+                 ELSE LET c == EvalE(e.cap[1], s, hi.st) IN
+                      IF c.o # "norm" THEN c
+                      ELSE IF c.v.t # "int" THEN Norm(MarkOpen(c.st), OpenV)
+                      ELSE IF c.v.i < hi.v.i THEN Thr(c.st, RtErrV("range"))
+                      ELSE IF c.v.i > n THEN Norm(MarkOpen(c.st), OpenV)
+                      ELSE Norm(c.st, res)
 
 EvalE(e, s, st) ==
   CASE e.k = "int"  -> Norm(st, IntV(e.i))
@@ -229,6 +271,13 @@ EvalE(e, s, st) ==
     [] e.k = "acall" ->
          LET f == EvalE(e.f, s, st) IN
          IF f.o # "norm" THEN f ELSE CallV(f.v, e, s, f.st, FALSE)
+    [] e.k = "slice" -> SliceE(e, s, st)
+    [] e.k = "opasg" ->     \* t op= e stands for t = t op e (the documented shorthand: the operands inside t are evaluated twice,
+                            \* once for the read -- before e -- and once for the store -- after it)
+         LET r == EvalE([k |-> "bin", op |-> e.op, l |-> e.t, r |-> e.e], s, st) IN
+         IF r.o # "norm" \/ r.v.t = "open" THEN r
+         ELSE LET a == AssignAll(<<e.t>>, <<r.v>>, 1, 1, s, r.st) IN
+              IF a.o # "norm" THEN a ELSE Norm(a.st, r.v)
     [] e.k = "hpanic" -> Thr(st, RtErrV("hostpanic"))     \* an operation on a host value that makes the Go runtime panic inside the interpreter
     [] e.k = "inc" ->       \* x++ stands for x = x + 1
          LET v == Lookup(st, s, e.n) IN
@@ -374,6 +423,8 @@ AssignAll(lhs, vals, i, n, s, st) ==
                  IF w = 0 THEN Thr(m.st, RtErrV("undefined"))
                  ELSE IF w = m.v.i THEN AssignAll(lhs, vals, i + 1, n, s, DefineIn(m.st, w, t.n, vals[i]))
                  ELSE Norm(MarkOpen(m.st), OpenV)
+            ELSE IF m.v.t = "map" /\ t.e.k = "id"          \* m.k = v on a map held by a name: the entry "k"
+                 THEN AssignAll(lhs, vals, i + 1, n, s, Assign(m.st, s, t.e.n, MapV(MapPut(m.v.l, StrV(t.n), vals[i]))))
             ELSE Norm(MarkOpen(m.st), OpenV)
        ELSE IF t.k = "idx" THEN
             LET root == PathRoot(t) IN
@@ -544,6 +595,25 @@ Exec(n, s, st) ==
                                                                                                    \* failing point runs, so finally does not; finally after a catch left by return/break/continue: open
               ELSE IF Len(n.f) = 1 THEN ExecList(n.f[1], 1, ns, c.st) ELSE Norm(c.st, OpenV)
          ELSE IF Len(n.f) = 1 THEN ExecList(n.f[1], 1, ns, b.st) ELSE Norm(b.st, OpenV)
+    [] n.k = "delete" ->   \* delete(m, k): the map, then the key, each once; delete("name") unbinds the name in the CURRENT block only,
+                           \* delete("name", true) the nearest binding.  (Containers are values here: the map must be held by a name.)
+         LET it == EvalE(n.e, s, st) IN
+         IF it.o # "norm" THEN it
+         ELSE LET kr == IF Len(n.key) = 1 THEN EvalE(n.key[1], s, it.st) ELSE Norm(it.st, NoneV) IN
+              IF kr.o # "norm" THEN kr
+              ELSE CASE it.v.t = "str" ->
+                          LET w == IF kr.v.t = "bool" /\ kr.v.i = 1 THEN Nearest(kr.st, s, it.v.s) ELSE s IN
+                          IF kr.v.t \notin {"bool", "none"} THEN Norm(MarkOpen(kr.st), OpenV)
+                          ELSE IF w = 0 \/ it.v.s \notin DOMAIN kr.st.sc[w].vars THEN Norm(kr.st, NilV)
+                          ELSE Norm([kr.st EXCEPT !.sc[w].vars = [m \in DOMAIN @ \ {it.v.s} |-> @[m]]], NilV)
+                     [] it.v.t = "map" ->
+                          IF Len(n.key) = 0 THEN Thr(kr.st, RtErrV("delete"))
+                          ELSE IF n.e.k # "id" THEN Norm(MarkOpen(kr.st), OpenV)
+                          ELSE IF kr.v.t \in {"list", "map"} THEN Thr(kr.st, RtErrV("unhashable"))
+                          ELSE IF kr.v.t \notin {"int", "str", "bool", "nil"} THEN Norm(MarkOpen(kr.st), OpenV)
+                          ELSE Norm(Assign(kr.st, s, n.e.n, MapV(SelectSeq(it.v.l, LAMBDA en : ~EqV(en.l[1], kr.v)))), NilV)
+                     [] it.v.t \in {"nil", "int", "bool", "flt", "func", "list"} -> Thr(kr.st, RtErrV("delete"))
+                     [] OTHER -> Norm(MarkOpen(kr.st), OpenV)
     [] n.k = "module" ->
          LET st1 == NewScope(st, s)
              ns == Top(st1)
